@@ -11,26 +11,38 @@ COQ_MODEL = ["C01/Check.v", "C01/FactsCfg.v", "Gen/C01Facts.v"]
 COQ_PROOF_DEPS = ["C01/Proofs.v", "C01/SiteClasses.v"]
 COQ_OBLIG = ["C01/Property.v", "Gen/C01Oblig.v"]
 CASES_HEADER = ("Require Import Nib.C01.Sites Nib.C01.Model Nib.C01.Spec Nib.C01.Check Nib.C01.FactsCfg Nib.Gen.C01Facts.\n"
-                "Definition current_cfg : cfg := Eval vm_compute in cfg_of_facts map_sites toslice_uses.")
+                "Definition current_cfg : cfg := Eval vm_compute in cfg_of_facts map_sites toslice_uses conc_sites.")
 CASE_TYPE = "case"
 MISMATCH_FN = "mismatch current_cfg"
 VIOLATES_FN = "violates"
 RULE = ("diff cases = one generated history of 9-13 blocks (oracle prevote/vote by 3 validators, sudo EditSudoers with 3-6 "
         "contracts, EVM transfers / deploys / calls writing 1-5 slots and paying 0-4 fresh accounts, FunToken create/convert, "
         "precompile calls, messages that FAIL WHILE EXECUTING in every module (FunToken convert above balance / by a non-holder / wrong direction, CreateFunToken without metadata or from a non-ERC20 address, bank / delegate above balance, EVM value above balance, gas below intrinsic, future nonce, over-large sendToBank), restarts of the perturbed replica placed right after such failures with EVM traffic first thing afterwards, EOA->precompile txs with unknown selectors / truncated / malformed calldata for all three precompiles (VM error inside ResponseDeliverTx.Data), single txs that pay 2-12 fresh accounts and THEN call a Nibiru precompile (intermediate StateDB commit), sudo-gated oracle / inflation param edits, tokenfactory (sudo) denom metadata, gov proposals updating evm / devgas params (voted and executed), EVM access lists - every repeated message field with 6-15 entries in random order WITH DUPLICATES -, tokenfactory, authz grant/exec, delegate, bank send/multisend, day jumps for epochs+inflation) "
-        "executed on 3 replicas from one genesis through BeginBlock/DeliverTx/EndBlock/Commit, compared per block on app hash, "
+        "executed on 3 replicas from one genesis through BeginBlock/DeliverTx/EndBlock/Commit (one history in four, and a fixed "
+        "dense-oracle opener, also on a SLOW replica: short delays at every n-th store operation through a slow store-tracer sink, and "
+        "1.1-2 s stalls at BeginBlock/EndBlock store operations executed while an application goroutine is alive), compared per block on app hash, "
         "tx results and validator updates; non-trivial = the history successfully ran a multi-contract sudo edit AND an oracle "
         "vote round AND (an EVM call/deploy or a bank multisend that creates >= 2 accounts in one tx). Sub-model cases (sudo, "
-        "omap, SortedKeys, ABI selectors, TotalRewardWeight): non-trivial = at least two keys in the map; distinct = distinct input")
+        "omap, SortedKeys, ABI selectors, TotalRewardWeight): non-trivial = at least two keys in the map; distinct = distinct input. "
+        "range cases: omap.SortedMap.Range over 0-8 keys consumed by a fast consumer, one waiting 0-12 ms between receives and (1 in 16) "
+        "one stalling 1.1-2.4 s before one receive; non-trivial = at least two keys and some consumer really waited")
 ASSUMPTIONS = [
-    "in-process replicas see independent Go map iteration orders (Go randomises every range statement); goroutine timing, "
-    "wall clock and memory layout are exhibited only as far as three in-process replicas differ in them",
+    "in-process replicas see independent Go map iteration orders (Go randomises every range statement); memory layout is "
+    "exhibited only as far as in-process replicas and the separate-process replica differ in it",
+    "wall clock / goroutine timing: the theorems quantify over ALL clocks of the loops consuming omap.Range (the only goroutine "
+    "hand-over on the block-execution path, per the generated conc_sites inventory); the slow replica exhibits stalls of at most "
+    "2 s (quick) / 3.5 s (thorough) at store operations of BeginBlock/EndBlock while an application goroutine is alive, and short "
+    "delays elsewhere - a timeout longer than that is caught by the inventory obligation only",
     "the app-hash is a function of the committed KV content of all stores (IAVL); modelled as: any function of the state",
     "package scope (consensus vs rpc/cli/test tooling) is decided by the package path in the fact generator",
 ]
 TRUSTED = [
     "fact generator harness/gen/c01 (golang.org/x/tools/go/packages v0.29.0 + go/types): inventory and syntactic classification "
-    "of map-range sites, set.Set.ToSlice uses, time.Now / math/rand / go-statement sites",
+    "of map-range sites, set.Set.ToSlice uses, time.Now / math/rand / go-statement sites, and of every channel operation / select / "
+    "timer / timeout / deadline / sync / atomic / runtime construct (conc_sites)",
+    "conc_table in coq/C01/SiteClasses.v: the classes KJQueryOnly / KJInitOnly / KJErrorText are argued, not proved",
+    "the slow replica is the same NibiruApp built with loadLatest=false, BeginBlocker/EndBlocker wrapped (context multistore whose "
+    "operations sleep), then LoadLatestVersion; runtime.NumGoroutine() decides where long stalls are taken",
     "cosmos-sdk, CometBFT ABCI types, IAVL, geth interpreter: executed, not modelled",
 ]
 # GasUsed of txs rejected BEFORE the ante handler (GasWanted = 0) is compared on its own channel: baseapp reports the block
@@ -89,6 +101,9 @@ def to_coq_case(rec):
                                    "; ".join("(%s, %s)" % (_z(a), _z(b)) for a, b in obs["lookups"]))
     if t == "tw":
         return "CTotalWeight [%s] %s" % ("; ".join("(%s, %s)" % (_z(a), _z(b)) for a, b in (inp.get("ws") or [])), _z(obs))
+    if t == "range":
+        runs = ["(%s, %s)" % (_zl(d), _zl(got)) for d, got in zip(inp.get("delays") or [], obs)]
+        return "CRange %s [%s]" % (_zl(inp.get("keys") or []), "; ".join(runs))
     raise ValueError("unknown case type " + t)
 
 
@@ -109,6 +124,9 @@ def nontrivial(rec):
         return len(obs["methods"]) >= 2
     if t == "tw":
         return len(inp.get("ws") or []) >= 2
+    if t == "range":
+        # at least two keys handed over while some consumer really waited between two receives
+        return len(set(inp.get("keys") or [])) >= 2 and any(any(d > 0 for d in c) for c in (inp.get("delays") or []))
     return False
 
 
@@ -128,6 +146,9 @@ def classify(rec):
         ks.append("perturbation:queries_answered_by_replica1=%d" % (obs.get("queries") or [0, 0])[1])
         ks.append("perturbation:restarts_of_replica2=%d" % obs.get("restarts", 0))
         ks.append("perturbation:checktx_on_replica2=%d" % obs.get("checktxs", 0))
+        if obs.get("slow"):
+            ks.append("perturbation:slow_replica/long_stalls=%d" % obs.get("slow_stalls", 0))
+            ks.append("perturbation:slow_replica/short_delays>0" if obs.get("slow_short", 0) > 0 else "perturbation:slow_replica/no_short_delays")
         for b in inp["blocks"]:
             if b.get("dt", 5) > 3600:
                 ks.append("day_jump")
@@ -137,6 +158,10 @@ def classify(rec):
     elif t == "omap":
         for op in inp["ops"]:
             ks.append("omap:" + op["op"])
+    elif t == "range":
+        longest = max([d for c in (inp.get("delays") or []) for d in c] or [0])
+        ks.append("range:longest_wait=" + ("0" if longest == 0 else "<=10ms" if longest <= 10 else "<=1s" if longest <= 1000 else ">1s"))
+        ks.append("range:consumers_agree" if all(g == obs[0] for g in obs) else "range:consumers_differ")
     return ks
 
 
@@ -145,7 +170,9 @@ def describe(rec):
     if inp["t"] == "diff":
         return {"type": "diff", "blocks": len(inp["blocks"]), "first_block": inp["blocks"][0] if inp["blocks"] else None,
                 "replica_ids": obs["replicas"], "preante_gas_ids": obs.get("preante_gas"), "queries": obs.get("queries"),
-                "restarts": obs.get("restarts"), "checktxs": obs.get("checktxs"), "differs": obs.get("differs"), "tx_kinds": obs.get("kinds")}
+                "restarts": obs.get("restarts"), "checktxs": obs.get("checktxs"), "differs": obs.get("differs"), "tx_kinds": obs.get("kinds"),
+                "slow_replica": ({"plan": inp.get("lag"), "yield_points": obs.get("slow_yields"), "long_stalls": obs.get("slow_stalls"),
+                                  "short_delays": obs.get("slow_short")} if obs.get("slow") else None)}
     return {"input": inp, "observed": obs}
 
 
@@ -162,16 +189,37 @@ def signature(rec):
 
 def input_size(inp):
     if inp["t"] == "diff":
-        return sum(10 + 10 * len(b["ops"]) + sum(len(o.get("l") or []) for o in b["ops"]) for b in inp["blocks"])
+        return (sum(10 + 10 * len(b["ops"]) + sum(len(o.get("l") or []) for o in b["ops"]) for b in inp["blocks"])
+                + (1 if inp.get("child") else 0) + (0 if inp.get("plain") else 1))
     import json
     return len(json.dumps(inp))
 
 
 def shrink_candidates(inp):
+    if inp["t"] == "range":
+        keys, delays = inp.get("keys") or [], inp.get("delays") or []
+        out = [dict(inp, keys=keys[:i] + keys[i + 1:]) for i in range(len(keys))]
+        out += [dict(inp, delays=delays[:i] + delays[i + 1:]) for i in range(1, len(delays)) if len(delays) > 2]
+        return out
     if inp["t"] != "diff":
         return []
     out = []
     blocks = inp["blocks"]
+    if inp.get("lag"):
+        # every candidate costs the slow replica's stalls: few candidates, the decisive simplifications first
+        if inp.get("child"):
+            out.append(dict(inp, child=False))
+        if not inp.get("plain"):
+            out.append(dict(inp, plain=True, child=False))
+        for n in (len(blocks) // 2, len(blocks) - 1):
+            if 0 < n < len(blocks):
+                out.append(dict(inp, blocks=blocks[:n]))
+        for k in sorted({o["kind"] for b in blocks for o in b["ops"]} - {"oracle"}):
+            out.append(dict(inp, blocks=[dict(b, ops=[o for o in b["ops"] if o["kind"] != k]) for b in blocks]))
+        for i in range(len(blocks)):
+            if len(blocks) > 1:
+                out.append(dict(inp, blocks=blocks[:i] + blocks[i + 1:]))
+        return out[:14]
     # drop trailing blocks, then single blocks, then ops (histories are long: keep the candidate list short)
     for n in (len(blocks) // 2, len(blocks) - 1):
         if 0 < n < len(blocks):
@@ -212,32 +260,46 @@ def model_search(chk):
     raw = {"t": "diff", "child": True, "blocks": [
         {"dt": 5, "ops": [{"kind": "pcraw", "a": w, "b": w, "c": (b + w) % 8, "l": [17 * b + w]} for w in range(3)] +
                          [{"kind": "pcraw", "a": b, "b": b, "c": 0, "l": [b]}]} for b in range(6)]}
-    return [pch, lists, raw, sudo, evmh, orc]
+    # wall clock / goroutine timing: a replica that stalls inside the loops consuming omap.Range (dense oracle rounds), and the
+    # producer goroutine itself against consumers that stall 1.3-2.5 s between two receives
+    slow = {"t": "diff", "lag": {"base_us": 100, "every": 50, "stall_ms": 1600, "stalls": 2}, "blocks": [
+        {"dt": 5, "ops": [{"kind": "oracle", "a": v, "b": 0, "c": 0, "l": [100 + (3 * b + v) % 7, 110 + (b + 2 * v) % 5, 105 + (b + v) % 3]}
+                          for v in range(3)]} for b in range(9)]}
+    rngs = [{"t": "range", "keys": [7, 3, 5, 9, 1], "delays": [[0] * 6, [0] * i + [1300 + 400 * i] + [0] * (5 - i)]} for i in range(1, 4)]
+    return [slow] + rngs + [pch, lists, raw, sudo, evmh, orc]
 
 
 MANIFEST = {
     "level_claimed": {
         "category": "proof",
         "text": ("Partial. Coq theorem C01_determinism: for EVERY history of custom-module messages (sudo edits, EVM state commits, "
-                 "oracle end-blocks, precompile registration/dispatch) and ANY two schedules assigning an arbitrary permutation to "
-                 "every execution of every map-range statement, the modelled final state and all results are equal (hence every "
+                 "oracle end-blocks, precompile registration/dispatch), ANY two schedules assigning an arbitrary permutation to "
+                 "every execution of every map-range statement and ANY two wall clocks (the time the consumer of omap.Range spends "
+                 "between two receives - no assumption), the modelled final state and all results are equal (hence every "
                  "function of them, C01_app_hash_deterministic) - given the mechanism flags (ToPb sorts, sortedDirties/SortedKeys/"
-                 "ensureOrder sort, oracle tally goes through omap). The flags are read off facts regenerated from /repo on every run "
-                 "(go/types inventory of every `for range <map>`, every set.ToSlice use, every time.Now/rand/go site) and "
+                 "ensureOrder sort, oracle tally goes through omap, the producer goroutine of omap.Range blocks on every send). "
+                 "C01_range_blocking_complete / C01_range_send_timeout_refuted: a blocking producer hands over every key under every "
+                 "clock; one that gives up after a bound does not. The flags are read off facts regenerated from /repo on every run "
+                 "(go/types inventory of every `for range <map>`, every set.ToSlice use, every time.Now/rand/go site, every channel "
+                 "operation / select / timer / timeout / deadline / sync / runtime query) and "
                  "C01_current_tree_deterministic is re-checked; every consensus-scope site must match a hand-reviewed table line "
                  "(shape + callees) whose justification class has a proved order-independence lemma, so a new or changed site "
                  "breaks an obligation even when execution happens to agree. Refutation theorems show the sudo sort and the dirties "
-                 "sort are necessary. The real chain is tied by a replica differential (3 in-process + 1 separate-process replica, "
+                 "sort are necessary. The real chain is tied by a replica differential (3 in-process + 1 separate-process replica + a "
+                 "slow replica with injected wall-clock delays and stalls, "
                  "mixed-module block histories through ABCI, byte comparison of app hash / tx results / validator updates) and by "
-                 "sub-model correspondence (sudo, omap, SortedKeys, ABI selectors, TotalRewardWeight) under two schedules."),
+                 "sub-model correspondence (sudo, omap, omap.Range under several consumer clocks, SortedKeys, ABI selectors, "
+                 "TotalRewardWeight) under two schedules."),
         "design_ref": "DESIGN.md §5 C01",
     },
-    "level_note": ("The theorems are about the schedule-parameterised model of the map-ranging sites, not about Go: goroutine timing, "
-                   "wall clock and memory layout are only inventoried (generated facts) and exhibited (replicas, one in another "
-                   "process). Trusted: Coq kernel + vm_compute; the go/packages fact generator and its path-based consensus/tooling "
+    "level_note": ("The theorems are about the schedule- and clock-parameterised model of the map-ranging sites and of omap.Range, not "
+                   "about Go: memory layout, and timers / selects / sync primitives / runtime queries (none on the block-execution "
+                   "path today) are only inventoried (generated facts, every site needs a reviewed table line) and exhibited "
+                   "(replicas, one in another process, one slow). Trusted: Coq kernel + vm_compute; the go/packages fact generator and its path-based consensus/tooling "
                    "scope; the hand table coq/C01/SiteClasses.v (classes JLogOnly/JDebug/JViaUses are argued, not proved); the Go "
                    "driver's digests and order-preserving ids; cosmos-sdk/IAVL/geth/wasm executed, not modelled. c_tally_via_omap, "
                    "c_remove_via_omap, c_storage_sorted are sufficient but not necessary in the model. devgas, IBC, gov not driven."),
-    "technique": ("Coq proofs of schedule independence (permutation/sort, commuting folds, unique match, omap invariant by induction) "
-                  "over generated site facts + replica differential on ABCI traces + sub-model correspondence"),
+    "technique": ("Coq proofs of schedule and clock independence (permutation/sort, commuting folds, unique match, omap invariant by "
+                  "induction, blocking producer/consumer hand-over) over generated site facts + replica differential on ABCI traces "
+                  "(incl. delay injection) + sub-model correspondence"),
 }
